@@ -2,13 +2,13 @@ from vlib.core import Ob
 from props._compose import pick
 ID = "C01"
 LEVEL = "model_checking"
-FUNCTIONS = ["GC_Mark", "GC_Mark_Item", "GC_Recurse", "GC_Mark_Stack", "GC_Sweep", "GC_Set"]
+FUNCTIONS = ["GC_Mark", "GC_Mark_And_Recurse", "GC_Rehash", "Tuple_Mark", "GC_Mark_Item", "GC_Recurse", "GC_Mark_Stack", "GC_Sweep", "GC_Set"]
 ASSUMPTIONS = []
 EXPLANATION = ("the mark phase decomposed into three contracts, each decided from an arbitrary valid registry and heap graph with the callee replaced by a recorder: GC_Mark marks every root and hands every "
                "stack word (either stack direction) to GC_Mark_Item; GC_Mark_Item marks a registered unmarked object and enters it exactly once and ignores everything else; GC_Recurse hands every word of a "
                "plain object to GC_Mark_Item. By induction on path length: everything reachable from a root or stack word is marked and the recursion ends; the sweep (arbitrary marking) frees only unmarked non-roots")
-OBLIGATIONS = (pick("C17", r"gc\.(mark_item|recurse|mark_top|sweep\.noown|set\.home)", tiers=None)
-               + pick("C02", r"table\.mark\.", tiers=None) + pick("C04", r"(array|list)\.mark\.", tiers=None) + pick("C03", r"tree\.mark\.(q|t)", tiers=None))
+OBLIGATIONS = (pick("C17", r"gc\.(mark_item|recurse|mark_and_recurse|mark_top|rehash|sweep\.noown|set\.home)|alloc_layer", tiers=None)
+               + pick("C02", r"table\.mark\.", tiers=None) + pick("C04", r"(array|list|tuple)\.mark\.", tiers=None) + pick("C03", r"tree\.mark\.(q|t)", tiers=None))
 LEVEL_TEXT = ("Bounded model checking, compositional: GC_Mark / GC_Mark_Item / GC_Recurse contracts from arbitrary registries and heap graphs (5 slots, <= 4 cells, 2 stack words, cycles and self-references "
               "included because edges are arbitrary), plus the sweep for arbitrary markings; the induction that glues the contracts into 'reachable => never reclaimed' is a paper argument stated in DESIGN.md.")
 LEVEL_NOTE = ("Trusted: cbmc; the gluing induction; the machine stack and register flush (setjmp) are replaced by a harness array through the CELLO_VERIF hook; the Mark instances of Array, List, Table and Tree hand every element/key/value to the collector exactly once (Tuple, Thread not covered); "
